@@ -334,8 +334,14 @@ def r6(ctx, rep):
     rep.check(txt.index("infer_sorts(") < txt.index("assign_names(") if "infer_sorts(" in txt and "assign_names(" in txt else False,
               "order", "postprocess must run infer_sorts before assign_names (sorting adds relation references)", file=f["file"], line=f["l"], fn=f["path"])
     a = syn.fn("postprocess::assign_names", crate="prqlc")
-    wl = [n for n in walk(a["body"]) if n.get("k") == "while"]
-    ok = any("decl.name.is_none()" in show(w["c"]) and "names.contains(" in show(w["c"]) and "table_name.gen()" in show_stmts(w["body"]) for w in wl)
+    import guards as _g
+    par_a = _g.parents(a["body"])
+    ok = False
+    for n in walk(a["body"]):
+        if n.get("k") == "mcall" and n["m"] == "gen" and show(n["r"]).endswith("table_name"):
+            lp, tests, form = _g.regen_loop(par_a, n)
+            # (while form: the condition also covers the missing name; loop form: only a `Some(name)` that is free breaks out)
+            ok = ok or (form == "while" and bool(tests) and "is_none()" in show(lp["c"])) or (form == "loop" and bool(tests))
     rep.check(ok, "cte-names", "CTE names must be regenerated until set and not clashing", file=a["file"], line=a["l"], fn=a["path"])
     fr = [x for x in syn.find_fns("fold_rel", crate="prqlc") if x.get("self_short") == "RelVarNameAssigner"]
     if len(fr) != 1:
@@ -652,16 +658,16 @@ def set_ops_tables(ctx, rep, rid):
     syn = ctx.syn
     f = syn.fn("gen_query::translate_set_ops_pipeline", crate="prqlc")
     # (a) the SQL operator has the name of the transform
-    ops = None
+    # (one match or several, a bare operator or a tuple that contains it: per transform kind, the SetOperator variants its arms mention)
+    found = {}
     for m_ in matches_of(f["body"]):
-        rows = {}
         for arm in m_["arms"]:
             for alt in pat_alts(arm["pat"]):
                 h = pat_head(alt)
                 if isinstance(h, str) and last_seg(h) in ("Union", "Except", "Intersect"):
-                    rows[last_seg(h)] = last_seg(show(arm["body"]))
-        if len(rows) == 3 and all(v in ("Union", "Except", "Intersect") for v in rows.values()):
-            ops = rows
+                    names = {last_seg(x["p"]) for x in walk(arm["body"]) if x.get("k") == "path" and re.search(r"SetOperator::\w+$", x["p"])}
+                    found.setdefault(last_seg(h), set()).update(names)
+    ops = {k: "|".join(sorted(v)) for k, v in found.items()} if len(found) == 3 and all(found.values()) else None
     rep.check(ops is not None and all(k == v for k, v in ops.items()), "set-op:table", f"each set transform must become the SQL set operator of the same name; found {ops}", file=f["file"], line=f["l"], fn=f["path"])
     # (b) quantifier: ALL unless the transform is distinct; DISTINCT is spelled out only for dialects that accept the keyword
     q = None
